@@ -162,8 +162,6 @@ def replay_open(f):
 def run(ctx, args):
     ctx.regen(["GenWs.v", "GenWrap.v"])
     ctx.build("Props/C19.vo")
-    if ctx.tier == "thorough":
-        ctx.coqchk("Delb.Props.C19")
     if args.replay:
         with open(args.replay) as f:
             rep = json.load(f)
